@@ -136,22 +136,24 @@ let run (op_full : string) (a : string array) : string =
   | "strip_nulls" -> show_buf_st (strip_nulls_st (unhex a.(0)) prefix)
   | "build_array" -> show_buf_st (build_array_st (hexlist a.(0)) prefix)
   | "build_object" -> show_buf_st (build_object_st (hexlist a.(0)) (hexlist a.(1)) prefix)
-  | "select" -> show_sel prefix (select_w (unhex a.(0)) (parse_jsonpath a.(1)) (mode_of a.(2)) prefix)
+  | "select" -> show_sel_st (select_st (unhex a.(0)) (parse_jsonpath a.(1)) (mode_of a.(2)) (prefix, []))
   | "sel_exists" -> show_res show_bool (sel_exists_w (unhex a.(0)) (parse_jsonpath a.(1)))
   | "sel_predicate_match" -> show_res show_bool (sel_predicate_match_w (unhex a.(0)) (parse_jsonpath a.(1)))
-  | "get_by_path" -> show_sel prefix (get_by_path_w (unhex a.(0)) (parse_jsonpath a.(1)) prefix)
-  | "get_by_path_first" -> show_sel prefix (get_by_path_first_w (unhex a.(0)) (parse_jsonpath a.(1)) prefix)
-  | "get_by_path_array" -> show_sel prefix (get_by_path_array_w (unhex a.(0)) (parse_jsonpath a.(1)) prefix)
+  | "get_by_path" -> show_sel_st (get_by_path_st (unhex a.(0)) (parse_jsonpath a.(1)) (prefix, []))
+  | "get_by_path_first" -> show_sel_st (get_by_path_first_st (unhex a.(0)) (parse_jsonpath a.(1)) (prefix, []))
+  | "get_by_path_array" -> show_sel_st (get_by_path_array_st (unhex a.(0)) (parse_jsonpath a.(1)) (prefix, []))
   | "path_batch" ->
+      (* several selections into ONE data buffer and ONE offsets vector: the state is threaded through the calls; the first
+         Err ends the batch with the vectors as that call left them *)
       let root = unhex a.(0) in
-      let f = match a.(1) with "get_by_path" -> get_by_path_w | "get_by_path_first" -> get_by_path_first_w | _ -> get_by_path_array_w in
-      let rec go i data offs =
-        if i >= Array.length a then "ok " ^ hex data ^ " " ^ show_offs offs
-        else match f root (parse_jsonpath a.(i)) data with
-          | Ok (d, o) -> go (i + 1) d (offs @ o)
-          | Err e -> "err " ^ show_err e ^ " " ^ hex data ^ " " ^ show_offs offs
-          | Panic -> "panic" in
-      go 2 prefix []
+      let f = match a.(1) with "get_by_path" -> get_by_path_st | "get_by_path_first" -> get_by_path_first_st | _ -> get_by_path_array_st in
+      let rec go i st =
+        if i >= Array.length a then show_sel_st (st, Ok ())
+        else match f root (parse_jsonpath a.(i)) st with
+          | (st', Ok _) -> go (i + 1) st'
+          | (st', Err e) -> show_sel_st (st', Err e)
+          | (_, Panic) -> "panic" in
+      go 2 (prefix, [])
   | "path_exists" -> show_res show_bool (path_exists_w (unhex a.(0)) (parse_jsonpath a.(1)))
   | "path_match" -> show_res show_bool (path_match_w (unhex a.(0)) (parse_jsonpath a.(1)))
   | "parse_json_path" ->
